@@ -503,6 +503,13 @@ func c10Gen(c *hmain.Ctx) {
 	c10GenGroup(c)
 }
 
+var (
+	c10FamDiscardSpread = pipedrv.Opts{Procs: []int{2, 3, 4}, Actions: [2]int{1, 3}, Ops: "ppdd", HoldCol: true, DiscardCol: true, OutKinds: []int{1, 1, 2},
+		Spread: true, Sources: [2]int{1, 3}, Streams: [2]int{1, 1}, Events: [2]int{8, 30}, Flush: [2]int{30, 120}}
+	c10FamDiscardOne = pipedrv.Opts{Procs: []int{1}, Actions: [2]int{1, 3}, Ops: "ppdd", HoldCol: true, DiscardCol: true, OutKinds: []int{1, 1, 2},
+		Spread: true, Sources: [2]int{1, 3}, Streams: [2]int{1, 1}, Events: [2]int{8, 30}, Flush: [2]int{30, 120}}
+)
+
 func main() {
 	hmain.Run(&hmain.Prop{ID: "C10",
 		Rule: "boundary: all powers of two and their neighbours up to the ends of the Go types, all (index,partition) and (offset,epoch) pairs, and the 16 corners of the stated ranges inside/just outside; exhaustive: index<4 x partition<16 x offset<16 x epoch<4 and every one of the 65536 partition and epoch values; random tuples (70% inside the stated ranges over all bit lengths); unpacking of arbitrary bit patterns; random consume+Commit sequences (permuted completion order, repeats, omissions, duplicate topic names, epoch -1 / out-of-range components) on the real Commit + real kgo marks; raw events incl. topic index outside the list; consumer.go thresholds (gen37.go): one fetch of 255..700 records (bufferSize 256), 6..40 fetches of one partition, 150..300 Commit calls on one plugin, directed and random consumer-group sessions on the real Assigned / Lost / pconsumer goroutines (bursts of 6..12 fetches on one consumer, Lost with 0..6 buffered fetches incl. the full channel of 5, fetches for partitions without a consumer, re-assignment with redelivery); which=5 (group.go, broker.go, gengroup.go): the real plugin through Factory / Start / NewClient / the poll loop / Stop in a consumer group on an in-process Kafka broker, several plugin lifetimes on one group (restart after Stop, after a refused final commit, rebalances), all balancers, both offset settings, meta templates, PollRecords limits 1..256, optionally the real pipeline between In and Commit; the topics list itself (gentopics.go, gengroup.go): every list of 1..4 positions over a / ab / b through the real consumer loop and Commit (commit-topics), random lists of 2..8 positions over seven prefix / near-miss names with partial acknowledgement (commit-topics-random), such lists through Assigned / Lost sessions (session-topics) and through the whole plugin in a consumer group (group-topics-directed: repeats with other names behind them, all orders of three names, prefix names; group-topics: random lists), each acknowledgement judged per Commit call against the records acknowledged by then. Non-trivial = all four components positive and inside the ranges (pack), an in-range sequence with >= 3 Commit calls (commit), every unpack / raw case, an in-range session that routed at least one record; distinct = distinct (sub-model, case) text.",
@@ -513,7 +520,15 @@ func main() {
 			}
 			// frontier clause at pipeline level: a kafka-like input (UseSpread + DisableStreams) on the
 			// real pipeline; monitor = per-source (partition) commit frontier
-			pipedrv.GenFamilies(c, pipedrv.PipeWhich, []pipedrv.Fam{{Stream: "spread-frontier", Opts: pipedrv.FamSpread, N: 40}, {Stream: "spread-split", Opts: pipedrv.FamSpreadSplit, N: 20}})
+			pipedrv.GenFamilies(c, pipedrv.PipeWhich, []pipedrv.Fam{{Stream: "spread-frontier", Opts: pipedrv.FamSpread, N: 40}, {Stream: "spread-split", Opts: pipedrv.FamSpreadSplit, N: 20},
+				// records an action discards / holds / collapses in front of a batching output that acknowledges late (flush
+				// time-out 30..120 ms, batches of 1..4, retriable output too), several records per partition, 2..4 processors:
+				// monitor 18 (a commit notification for a record that never reached the output is no evidence for earlier
+				// records of its partition) next to monitor 8
+				{Stream: "spread-frontier", Opts: c10FamDiscardSpread, N: 24},
+				// the same with ONE processor: spread routing puts everything on one stream, the batcher commits in order, so
+				// the full per-source frontier (monitor 8) holds and is claimed
+				{Stream: "discard-frontier-1p", Opts: c10FamDiscardOne, N: 16}})
 		},
 		Exec: pipedrv.WrapExec(c10Exec)})
 }
